@@ -833,7 +833,10 @@ class Engine(ExprMixin, CallMixin):
         except Inapplicable as e:
             return dict(status='inapplicable', reason=str(e), obligations=[], sha=sha, dropped=dropped)
         except z3.Z3Exception as e:
-            return dict(status='unsupported', reason='z3 sort error: %s' % e, obligations=[], sha=sha, dropped=dropped)
+            import traceback
+            where = [l.strip() for l in traceback.format_exc().strip().splitlines() if l.strip().startswith('File')][-7:]
+            return dict(status='unsupported', reason='z3 sort error: %s @ %s' % (e, ' <- '.join(w[-70:] for w in where[::-1])),
+                        obligations=[], sha=sha, dropped=dropped)
         except (KeyError, AttributeError, IndexError, TypeError, RecursionError) as e:
             import traceback
             return dict(status='unsupported', reason='executor/contract error %s: %s @ %s' % (
